@@ -39,6 +39,9 @@ fn gen(t: Tier, _seed: u64, emit: &mut dyn FnMut(Case)) {
             }
             emit(Case::Shape { cid, n, s: 1, ph: nof / 2 + 1, n2: 1, s2: 0 });
         }
+        for n in huge_lengths(bits).into_iter().filter(|n| *n <= 17000).step_by(2) {
+            emit(Case::Shape { cid, n, s: n % 2, ph: 0, n2: 2, s2: 1 });
+        }
         let spw = 64 / bits;
         for n in [0usize, 1, 2, 3, 5, 7, spw + 1] {
             for w in [1usize, 2, 3, n, n + 1] {
@@ -167,7 +170,13 @@ fn run_g<A: Sx>(c: &Case, out: &mut Out) {
         (1..=n + 2).collect()
     } else {
         // long sequences: widths around 1, the word size, half the length and the length
-        let mut w = vec![1, 2, 3, spw - 1, spw, spw + 1, 2 * spw + 1, n / 2, n / 2 + 1, n - 1, n, n + 1, n + 2];
+        let mut w = vec![1, 2, 3, spw - 1, spw, spw + 1, 2 * spw + 1, n - 1, n, n + 1, n + 2];
+        if n <= 2000 {
+            w.extend([n / 2, n / 2 + 1]);
+        } else {
+            // very long: also chunk widths around a 64-word block
+            w.extend([64 * spw - 1, 64 * spw, 64 * spw + 1]);
+        }
         w.retain(|x| *x >= 1);
         w.sort();
         w.dedup();
